@@ -3,6 +3,7 @@ package extract
 import (
 	"go/ast"
 	"go/token"
+	"strconv"
 	"strings"
 )
 
@@ -17,6 +18,22 @@ type irGen struct {
 	out   []string
 	depth int
 	ok    bool
+	// names are written as their index in this table (the kernel compares numbers fast)
+	names []string
+	index map[string]int
+}
+
+func (g *irGen) id(name string) string {
+	if g.index == nil {
+		g.index = map[string]int{}
+	}
+	i, ok := g.index[name]
+	if !ok {
+		i = len(g.names)
+		g.index[name] = i
+		g.names = append(g.names, name)
+	}
+	return strconv.Itoa(i)
 }
 
 // functions returning a view of (something reachable from) their first argument
@@ -65,6 +82,99 @@ func root(e ast.Expr) string {
 
 func q(prefix, name string) string { return prefix + "/" + name }
 
+// Every Go variable x has two IR names: x (the object it refers to: the struct, the map, the
+// backing array of the slice) and x# (anything reachable from that object). A slice built with
+// append([]T(nil), ops...) is a fresh x whose x# are the caller's elements: sorting it writes x,
+// assigning through one of its elements writes x#.
+func (g *irGen) al(dst, src string) { g.emit("Instr.alias " + g.id(dst) + " " + g.id(src)) }
+
+// fresh binds x and x# to new objects
+func (g *irGen) fresh(x string) {
+	g.emit("Instr.alloc " + g.id(x))
+	g.emit("Instr.alloc " + g.id(x+"#"))
+}
+
+// same: dst = src (the same object, the same contents)
+func (g *irGen) same(dst, src string) {
+	g.al(dst, src)
+	g.al(dst+"#", src+"#")
+}
+
+// flow: dst is src or something reachable from it
+func (g *irGen) flow(dst, src string) {
+	g.al(dst, src)
+	g.al(dst, src+"#")
+	g.al(dst+"#", src)
+	g.al(dst+"#", src+"#")
+}
+
+// into: src (and what it reaches) is stored somewhere inside dst
+func (g *irGen) into(dst, src string) {
+	g.al(dst+"#", src)
+	g.al(dst+"#", src+"#")
+}
+
+// write: an assignment through a path of `depth` steps from x
+func (g *irGen) wr(x string, depth int) {
+	g.emit("Instr.write " + g.id(x))
+	if depth >= 2 {
+		g.emit("Instr.write " + g.id(x+"#"))
+	}
+}
+
+// depth counts the index / field / dereference steps of a path expression
+func depth(e ast.Expr) int {
+	n := 0
+	for {
+		switch t := e.(type) {
+		case *ast.IndexExpr:
+			n++
+			e = t.X
+		case *ast.SelectorExpr:
+			n++
+			e = t.X
+		case *ast.StarExpr:
+			n++
+			e = t.X
+		case *ast.SliceExpr:
+			e = t.X
+		case *ast.ParenExpr:
+			e = t.X
+		case *ast.TypeAssertExpr:
+			e = t.X
+		default:
+			return n
+		}
+	}
+}
+
+// stored: every variable mentioned in the elements of a composite literal (or in e itself) ends
+// up inside dst
+func (g *irGen) stored(prefix, dst string, e ast.Expr) {
+	switch t := e.(type) {
+	case *ast.CompositeLit:
+		for _, el := range t.Elts {
+			if kv, ok := el.(*ast.KeyValueExpr); ok {
+				g.stored(prefix, dst, kv.Value)
+			} else {
+				g.stored(prefix, dst, el)
+			}
+		}
+	case *ast.UnaryExpr:
+		g.stored(prefix, dst, t.X)
+	case *ast.CallExpr:
+		// the result of a call stored directly: conservatively whatever its arguments reach
+		for _, a := range t.Args {
+			g.stored(prefix, dst, a)
+		}
+	case *ast.BasicLit, *ast.FuncLit:
+	default:
+		if r := root(e); r != "" && !isPackageName(r) && r != "nil" && r != "true" && r != "false" {
+			g.into(q(prefix, dst), q(prefix, r))
+		}
+	}
+}
+
 // assign generates IR for `x = e` where x is a plain identifier.
 func (g *irGen) assign(prefix, x string, e ast.Expr) {
 	if x == "_" || x == "" {
@@ -81,23 +191,25 @@ func (g *irGen) assign(prefix, x string, e ast.Expr) {
 		if t.Name == "nil" || t.Name == "true" || t.Name == "false" {
 			// fresh value: a plain re-assignment keeps whatever x may already refer to (branches are flattened)
 		} else {
-			g.emit("Instr.alias " + LeanStr(q(prefix, x)) + " " + LeanStr(q(prefix, t.Name)))
+			g.same(q(prefix, x), q(prefix, t.Name))
 		}
 	case *ast.IndexExpr, *ast.SelectorExpr, *ast.SliceExpr, *ast.StarExpr, *ast.TypeAssertExpr, *ast.ParenExpr:
-		if r := root(e); r != "" {
-			g.emit("Instr.alias " + LeanStr(q(prefix, x)) + " " + LeanStr(q(prefix, r)))
+		if r := root(e); r != "" && !isPackageName(r) {
+			g.flow(q(prefix, x), q(prefix, r))
 		}
 	case *ast.UnaryExpr:
 		if t.Op == token.AND {
-			if _, lit := t.X.(*ast.CompositeLit); lit {
+			if cl, lit := t.X.(*ast.CompositeLit); lit {
+				g.stored(prefix, x, cl)
 				return
 			}
-			if r := root(t.X); r != "" {
-				g.emit("Instr.alias " + LeanStr(q(prefix, x)) + " " + LeanStr(q(prefix, r)))
+			if r := root(t.X); r != "" && !isPackageName(r) {
+				g.flow(q(prefix, x), q(prefix, r))
 				return
 			}
 		}
 	case *ast.CompositeLit:
+		g.stored(prefix, x, t)
 	default:
 	}
 }
@@ -108,13 +220,18 @@ func (g *irGen) literalAliases(prefix, x string, cl *ast.CompositeLit) {}
 
 func (g *irGen) call(prefix, x string, call *ast.CallExpr) {
 	fun := g.c.src(call.Fun)
-	dst := func() string { return LeanStr(q(prefix, x)) }
 	// builtins
 	switch fun {
 	case "append":
 		if x != "" && len(call.Args) > 0 {
-			if r := root(call.Args[0]); r != "" {
-				g.emit("Instr.alias " + dst() + " " + LeanStr(q(prefix, r)))
+			// the result is the first argument (or a grown copy of it) holding the further ones
+			if r := root(call.Args[0]); r != "" && !isPackageName(r) {
+				if _, conv := call.Args[0].(*ast.CallExpr); !conv {
+					g.same(q(prefix, x), q(prefix, r))
+				}
+			}
+			for _, a := range call.Args[1:] {
+				g.stored(prefix, x, a)
 			}
 		}
 		return
@@ -123,7 +240,10 @@ func (g *irGen) call(prefix, x string, call *ast.CallExpr) {
 	}
 	if writerFuncs[fun] && len(call.Args) > 0 {
 		if r := root(call.Args[0]); r != "" {
-			g.emit("Instr.write " + LeanStr(q(prefix, r)))
+			g.wr(q(prefix, r), depth(call.Args[0])+1)
+			if fun == "copy" && len(call.Args) > 1 {
+				g.stored(prefix, r, call.Args[1])
+			}
 		}
 		return
 	}
@@ -147,24 +267,24 @@ func (g *irGen) call(prefix, x string, call *ast.CallExpr) {
 				i++
 			}
 		}
-		g.emit("Instr.alloc " + LeanStr(q(cp, "$ret")))
+		g.fresh(q(cp, "$ret"))
 		g.block(cp, fd.Body)
 		g.depth--
 		if x != "" {
-			g.emit("Instr.alias " + dst() + " " + LeanStr(q(cp, "$ret")))
+			g.same(q(prefix, x), q(cp, "$ret"))
 		}
 		return
 	}
 	if viewFuncs[fun] && len(call.Args) > 0 && x != "" {
 		if r := root(call.Args[0]); r != "" {
-			g.emit("Instr.alias " + dst() + " " + LeanStr(q(prefix, r)))
+			g.flow(q(prefix, x), q(prefix, r))
 			return
 		}
 	}
 	// method call on a local value: conservatively a view of the receiver
 	if sel, ok := call.Fun.(*ast.SelectorExpr); ok && x != "" {
 		if id, isId := sel.X.(*ast.Ident); isId && id.Obj == nil && !isPackageName(id.Name) {
-			g.emit("Instr.alias " + dst() + " " + LeanStr(q(prefix, id.Name)))
+			g.flow(q(prefix, x), q(prefix, id.Name))
 			return
 		}
 	}
@@ -182,20 +302,21 @@ func (g *irGen) isReceiverCall(sel *ast.SelectorExpr) bool {
 
 // assign2: callee parameter := caller argument (names live in different prefixes)
 func (g *irGen) assign2(calleePrefix, param, callerPrefix string, arg ast.Expr) {
+	g.fresh(q(calleePrefix, param))
 	if r := root(arg); r != "" && !isPackageName(r) {
 		if _, isCall := arg.(*ast.CallExpr); isCall {
 			// evaluate the argument expression into a temporary of the caller
 			tmp := "$arg" + param
 			g.assign(callerPrefix, tmp, arg)
-			g.emit("Instr.alloc " + LeanStr(q(calleePrefix, param)))
-			g.emit("Instr.alias " + LeanStr(q(calleePrefix, param)) + " " + LeanStr(q(callerPrefix, tmp)))
+			g.same(q(calleePrefix, param), q(callerPrefix, tmp))
 			return
 		}
-		g.emit("Instr.alloc " + LeanStr(q(calleePrefix, param)))
-		g.emit("Instr.alias " + LeanStr(q(calleePrefix, param)) + " " + LeanStr(q(callerPrefix, r)))
-		return
+		if _, plain := arg.(*ast.Ident); plain {
+			g.same(q(calleePrefix, param), q(callerPrefix, r))
+		} else {
+			g.flow(q(calleePrefix, param), q(callerPrefix, r))
+		}
 	}
-	g.emit("Instr.alloc " + LeanStr(q(calleePrefix, param)))
 }
 
 func (g *irGen) block(prefix string, b *ast.BlockStmt) {
@@ -216,14 +337,15 @@ func (g *irGen) stmt(prefix string, st ast.Stmt) {
 				if id, ok := l.(*ast.Ident); ok {
 					if i == 0 {
 						if t.Tok == token.DEFINE {
-							g.emit("Instr.alloc " + LeanStr(q(prefix, id.Name)))
+							g.fresh(q(prefix, id.Name))
 						}
 						g.assign(prefix, id.Name, t.Rhs[0])
 					} else if id.Name != "_" {
-						g.emit("Instr.alloc " + LeanStr(q(prefix, id.Name)))
+						g.fresh(q(prefix, id.Name))
 					}
 				} else if r := root(l); r != "" {
-					g.emit("Instr.write " + LeanStr(q(prefix, r)))
+					g.wr(q(prefix, r), depth(l))
+					g.stored(prefix, r, t.Rhs[0])
 					if call, ok := t.Rhs[0].(*ast.CallExpr); ok {
 						g.call(prefix, "", call)
 					}
@@ -237,11 +359,12 @@ func (g *irGen) stmt(prefix string, st ast.Stmt) {
 			}
 			if id, ok := l.(*ast.Ident); ok {
 				if t.Tok == token.DEFINE {
-					g.emit("Instr.alloc " + LeanStr(q(prefix, id.Name)))
+					g.fresh(q(prefix, id.Name))
 				}
 				g.assign(prefix, id.Name, t.Rhs[i])
 			} else if r := root(l); r != "" {
-				g.emit("Instr.write " + LeanStr(q(prefix, r)))
+				g.wr(q(prefix, r), depth(l))
+				g.stored(prefix, r, t.Rhs[i])
 			}
 		}
 	case *ast.DeclStmt:
@@ -249,7 +372,7 @@ func (g *irGen) stmt(prefix string, st ast.Stmt) {
 			for _, sp := range gd.Specs {
 				if vs, ok := sp.(*ast.ValueSpec); ok {
 					for i, n := range vs.Names {
-						g.emit("Instr.alloc " + LeanStr(q(prefix, n.Name)))
+						g.fresh(q(prefix, n.Name))
 						if i < len(vs.Values) {
 							g.assign(prefix, n.Name, vs.Values[i])
 						}
@@ -287,9 +410,9 @@ func (g *irGen) stmt(prefix string, st ast.Stmt) {
 		r := root(t.X)
 		for _, kv := range []ast.Expr{t.Key, t.Value} {
 			if id, ok := kv.(*ast.Ident); ok && id.Name != "_" {
-				g.emit("Instr.alloc " + LeanStr(q(prefix, id.Name)))
-				if r != "" {
-					g.emit("Instr.alias " + LeanStr(q(prefix, id.Name)) + " " + LeanStr(q(prefix, r)))
+				g.fresh(q(prefix, id.Name))
+				if r != "" && !isPackageName(r) {
+					g.flow(q(prefix, id.Name), q(prefix, r))
 				}
 			}
 		}
@@ -306,10 +429,10 @@ func (g *irGen) stmt(prefix string, st ast.Stmt) {
 	}
 }
 
-func (c *ctx) program(rel, entry string, inputs []string) (prog, ins string) {
+func (c *ctx) program(rel, entry string, inputs []string) (prog, ins, names string) {
 	f := c.file(rel)
 	if f == nil {
-		return "", ""
+		return "", "", ""
 	}
 	g := &irGen{c: c, funcs: map[string]*ast.FuncDecl{}}
 	for _, d := range f.Decls {
@@ -319,15 +442,15 @@ func (c *ctx) program(rel, entry string, inputs []string) (prog, ins string) {
 	}
 	fd, ok := g.funcs[entry]
 	if !ok {
-		return "", ""
+		return "", "", ""
 	}
-	g.emit("Instr.alloc " + LeanStr(q(entry, "$ret")))
+	g.fresh(q(entry, "$ret"))
 	g.block(entry, fd.Body)
 	var qi []string
 	for _, n := range inputs {
-		qi = append(qi, q(entry, n))
+		qi = append(qi, g.id(q(entry, n)), g.id(q(entry, n)+"#"))
 	}
-	return "[" + strings.Join(g.out, ", ") + "]", LeanStrList(qi)
+	return "[" + strings.Join(g.out, ", ") + "]", "[" + strings.Join(qi, ", ") + "]", LeanStrList(g.names)
 }
 
 func (c *ctx) effectFacts() {
@@ -339,8 +462,24 @@ func (c *ctx) effectFacts() {
 		{composerGo, "ApplyPatches", []string{"doc", "patches", "c"}},
 		{applierGo, "Apply", []string{"op", "rm", "s"}},
 	} {
-		prog, ins := c.program(x.rel, x.fn, x.ins)
-		c.add("Effects", "prog_"+x.fn, "List Sidetree.Effects.Instr", prog, x.rel+":"+x.fn, "effect summary (callees of the same file inlined)")
-		c.add("Effects", "inputs_"+x.fn, "List String", ins, x.rel+":"+x.fn, "parameters and receiver")
+		prog, ins, names := c.program(x.rel, x.fn, x.ins)
+		c.add("Effects", "prog_"+x.fn, "List (Sidetree.Effects.Instr Nat)", prog, x.rel+":"+x.fn, "effect summary (callees of the same file inlined); names are indices into names_"+x.fn)
+		c.add("Effects", "inputs_"+x.fn, "List Nat", ins, x.rel+":"+x.fn, "parameters and receiver, and what they reach (#)")
+		c.add("Effects", "names_"+x.fn, "List String", names, x.rel+":"+x.fn, "the variables the numbers stand for (x: the object, x#: anything reachable from it)")
+	}
+	// C20: the transformers get resolution models that share their operation lists and (after an
+	// update that did not take) their document with the state they were derived from
+	for _, x := range []struct {
+		rel, fn, name string
+		ins           []string
+	}{
+		{"pkg/versions/1_0/doctransformer/metadata/metadata.go", "CreateDocumentMetadata", "Metadata", []string{"rm", "info", "t"}},
+		{"pkg/versions/1_0/doctransformer/doctransformer/transformer.go", "TransformDocument", "DocTransform", []string{"rm", "info", "v"}},
+		{"pkg/versions/1_0/doctransformer/didtransformer/transformer.go", "TransformDocument", "DidTransform", []string{"rm", "info", "t"}},
+	} {
+		prog, ins, names := c.program(x.rel, x.fn, x.ins)
+		c.add("Effects", "prog_"+x.name, "List (Sidetree.Effects.Instr Nat)", prog, x.rel+":"+x.fn, "effect summary (callees of the same file inlined); names are indices into names_"+x.name)
+		c.add("Effects", "inputs_"+x.name, "List Nat", ins, x.rel+":"+x.fn, "parameters and receiver, and what they reach (#)")
+		c.add("Effects", "names_"+x.name, "List String", names, x.rel+":"+x.fn, "the variables the numbers stand for (x: the object, x#: anything reachable from it)")
 	}
 }
